@@ -168,6 +168,11 @@ def _instances(tier, seed):
                     if sa == "NONE" and sb == "NONE" and g == "none":
                         pass
                     mk(f"v1[{cs},{sa},{sb},{g}]", "v1", dict(charset=cs, sepA=sa, sepB=sb, gap=g, nbody=nb, lead=("all" if (full or (g == gaps[0] and sb == sa)) else False), blanks=full or (sb == sa and g != gaps[0])))
+    # bodies of up to 3 characters in ISO-8859-1 (thorough: also 2 in Windows-1252, whose table makes every character fork) in every declared character set, with every ENCODING token: in a single-byte character set
+    # two or three characters may happen to form a valid UTF-8 sequence (the text 'Ã©'); they are still what the charset says
+    mk("v1[ISO-8859-1,CRLF,CRLF,CRLFCRLF,body<=3]", "v1", dict(charset="ISO-8859-1", sepA="CRLF", sepB="CRLF", gap="CRLFCRLF", nbody=3, lead=False, blanks=False))
+    if full:
+        mk("v1[1252,CRLF,CRLF,CRLFCRLF,body<=2]", "v1", dict(charset="1252", sepA="CRLF", sepB="CRLF", gap="CRLFCRLF", nbody=2, lead=False, blanks=False), wall_s=1500)
     for q1 in ('"', "'", "n"):
         for q2 in ('"', "'"):
             if q1 == "n" and q2 == "'":
